@@ -69,13 +69,11 @@ def chain_cases(acc, probe, rng, count):
         if base[0] != "ok":
             acc.inconc("import-chain project does not assemble: %r" % (base,))
             continue
-        pr = L.Project(files, open_files=sorted(files))
+        pr = L.Project(files, open_files=sorted(files) if rng.random() < 0.6 else ["main.asm"])
         try:
             version = 2
             for sym, f, ln, c0, c1 in sites:
-                for name in sorted(files):
-                    version += 1
-                    pr.srv.did_change(pr.path(name), files[name], version)
+                pr.set_contents(files)
                 new = "zq" + "".join(rng.choice("abcdefghjkmnpqrstuvwxyz") for _ in range(max(1, len(sym) - 2)))
                 col = rng.randrange(c0, c1)
                 acc.evaluations += 1
@@ -116,9 +114,7 @@ def chain_cases(acc, probe, rng, count):
                 acc.nontriv("chain", files["mid.asm"], files["main.asm"], sym, f, ln)
                 acc.cover("chain_shapes", "%s/alias=%s/levels=%d" % (info["how"], bool(info["alias"]), info["levels"]))
                 if len(new) == len(sym):
-                    for name in sorted(files):
-                        version += 1
-                        pr.srv.did_change(pr.path(name), new_files[name], version)
+                    pr.set_contents(new_files)
                     back = pr.pos_request("textDocument/rename", f, ln, col, {"newName": sym})
                     ch2 = (back.get("result") or {}).get("changes") or {}
                     try:
@@ -167,7 +163,9 @@ def shard(idx, n, seed, tier, params):
                  and not any(in_dead(o) or not o["analysed"] for o in by_def[d.uid])]
         if not cands:
             continue
-        pr = L.Project(files, open_files=sorted(files))
+        # (a third of the projects has only the main file open: the other files change on disk, as they do when a client
+        # applies a workspace edit to files that are not open)
+        pr = L.Project(files, open_files=sorted(files) if rng.random() < 0.66 else ["main.asm"])
         try:
             version = 2
             for d in rng.sample(cands, min(len(cands), params["per_program"])):
@@ -176,9 +174,7 @@ def shard(idx, n, seed, tier, params):
                 if new is None:
                     continue
                 # reset the server to the original buffers (a rename request changes the server's symbol table, see C14)
-                for name in sorted(files):
-                    version += 1
-                    pr.srv.did_change(pr.path(name), files[name], version)
+                pr.set_contents(files)
                 # ask at the definition or at one of the uses
                 sites = [(d.pos[0], d.pos[1], d.pos[2], d.pos[3])] + [(o["file"], o["line"], o["c0"], o["c1"]) for o in by_def[d.uid] if not o["in_import_stmt"]]
                 f, ln, c0, c1 = rng.choice(sites)
@@ -239,9 +235,7 @@ def shard(idx, n, seed, tier, params):
                 acc.cover("kind_x_site", "%s/%s" % (ctx, "definition" if (f, ln, c0) == (d.pos[0], d.pos[1], d.pos[2]) else "use"))
                 # (3) renaming back restores the text byte for byte (same-length names keep the position valid)
                 if same_len:
-                    for name in sorted(files):
-                        version += 1
-                        pr.srv.did_change(pr.path(name), new_files[name], version)
+                    pr.set_contents(new_files)
                     back = pr.pos_request("textDocument/rename", f, ln, col, {"newName": d.name})
                     if "dead" in back or "timeout" in back:
                         acc.violation("server-died|rename-back", "no answer", dict(w, response2=back))
